@@ -82,8 +82,13 @@ def _mutate_field(rng, d, k):
         e[k] = pol
     else:
         v = d[k]
-        how = rng.choice(["append", "case", "swap", "other", "middle", "middle"])
-        if how == "middle":           # same length, same first and last bytes
+        how = rng.choice(["append", "case", "swap", "other", "middle", "middle", "long"])
+        if how == "long":             # long values (around and beyond 255 bytes, the host-name limit) that differ in their last byte only
+            n = rng.choice([254, 255, 256, 257, 300, 1000])
+            base = (v + b"abcdefghijklmnopqrstuvwxyz0123456789" * 30)[:n - 1]
+            d[k] = base + b"a"
+            e[k] = base + b"b"
+        elif how == "middle":         # same length, same first and last bytes
             if len(v) < 5:
                 v = v + b"0123456789abcdef0123456789abcdef01234567"[:40 - len(v)]
                 d[k] = v
